@@ -150,6 +150,7 @@ package ast
 // dupFree: t1.Get(taskName) was asked and said "absent"; excluded: the exclude list contains the name;
 // varsDone: the include statement's vars were merged into the copy.
 //@ ghost var dupFree bool scratch
+//@ ghost var reMatched bool scratch
 //@ ghost var excluded bool scratch
 //@ ghost var varsDone bool scratch
 
@@ -214,6 +215,9 @@ package ast
 //@   nilable vars other include
 //@   site (*OrderedMap).Set#1 requires arg0 == vars.om                                                       [C08,C10]
 //@   site (*OrderedMap).Set#1 requires include != nil && include.AdvancedImport ==> arg2.Dir == include.Dir  [C08,C09,C10]
+// ... and is otherwise taken over as it is: value, shell command, reference and the "live" (final, never
+// templated) value - the marker CLI_ARGS travels with
+//@   site (*OrderedMap).Set#1 requires arg1 == pair.Key && arg2.Value == pair.Value.Value && arg2.Live == pair.Value.Live && arg2.Sh == pair.Value.Sh && arg2.Ref == pair.Value.Ref   [C10,C19]
 
 // ---- C15 / C16: in a task name only '*' is special; every other character is matched literally ------------
 // The pattern handed to the regexp compiler is built from the name's '*'-separated segments, each of them
@@ -224,6 +228,12 @@ package ast
 //@   site strings.Split#1 requires arg0 == t.Task && arg1 == "*"                                                       [C15,C16]
 //@   site regexp.QuoteMeta#1 requires arg0 == names[$i]              -- every literal segment is quoted                [C15,C16]
 //@   site strings.Join#1 requires arg0 == names && arg1 == "(.*)"                                                      [C15,C16]
+// ... and "matches" means that this anchored expression matched the WHOLE requested name: there is no other way
+// to a positive answer (a literal prefix and suffix that overlap in the name are not a match)
+//@   init reMatched := false
+//@   site (*Regexp).FindStringSubmatch#1 requires arg1 == name                                                         [C15]
+//@   site (*Regexp).FindStringSubmatch#1 ghost reMatched := len(result) > 0
+//@   ensures result.0 ==> reMatched                                                                                    [C15]
 
 // ---- C18: the ordered maps of variables, tasks and includes are used under their own mutex ----------------
 // Exceptions (stated, not proved): the iterators All/Keys/Values hand out lock-free iteration by design (their
